@@ -32,6 +32,11 @@ type mBlock struct {
 	Root   *felt.Felt
 	Txs    []mTx
 	Stored uint64 // logical clock at which this block object became the block at height Num
+	// StaleSnap: at an ungraceful restart the snapshot on disk predated this block, yet the
+	// initialiser's rules (caught up / same-window gap) made it resume that snapshot for
+	// this height. The bits stay wrong (also through a later rollover into the persisted
+	// window, or a later graceful snapshot) until the height is stored again.
+	StaleSnap bool
 }
 
 func modelOfBlock(b *core.Block) *mBlock {
@@ -386,6 +391,17 @@ func (t *tracker) restarted(graceful bool) {
 		t.snapNext = uint64(len(t.blocks))
 	} else {
 		t.epochKind = "ungraceful"
+		if t.snapClock > 0 && len(t.blocks) > 0 {
+			head := t.head()
+			resumed := t.snapNext == head+1 || (t.snapNext <= head && head/window == t.snapNext/window)
+			if resumed {
+				for n := t.snapNext - t.snapNext%window; n < t.snapNext && n <= head; n++ {
+					if t.blocks[n].Stored > t.snapClock {
+						t.blocks[n].StaleSnap = true
+					}
+				}
+			}
+		}
 	}
 	t.epochClock = t.tick()
 }
@@ -398,6 +414,11 @@ func (t *tracker) falseNegativeClass(n uint64) string {
 	b := t.blocks[n]
 	w := n / window
 	rw := t.runningWindow()
+	if b.StaleSnap {
+		// the snapshot on disk predated this block, claimed to cover its height, and was
+		// resumed by an ungraceful restart
+		return "false-negative:stale-snapshot-after-reorg-ungraceful-restart"
+	}
 	if w != rw {
 		if at, ok := t.cachedAt[w]; ok && b.Stored > at {
 			// the block was (re)stored after a query of this Blockchain object had
@@ -405,12 +426,6 @@ func (t *tracker) falseNegativeClass(n uint64) string {
 			return "false-negative:stale-cached-window-after-reorg"
 		}
 		return fmt.Sprintf("false-negative:persisted-window:%s-start:reorgs=%v", t.epochKind, t.reorgs > 0)
-	}
-	if t.epochKind == "ungraceful" && t.snapClock > 0 && b.Stored > t.snapClock && b.Stored < t.epochClock &&
-		n < t.snapNext && n/window == t.snapNext/window {
-		// the snapshot on disk predates this block, claims to cover its height, and the
-		// block was not inserted by the current Blockchain object
-		return "false-negative:stale-snapshot-after-reorg-ungraceful-restart"
 	}
 	return fmt.Sprintf("false-negative:running-window:%s-start:reorgs=%v", t.epochKind, t.reorgs > 0)
 }
